@@ -65,7 +65,23 @@ static unsigned char *piece(unsigned char const *p, size_t from, size_t to)
     return q;
 }
 
+static a_u64 crc_call_(unsigned char const *p, size_t n, a_u64 v);
+
+/* every call sees the message at a different alignment: the bytes are copied to the END of an exactly sized block (reads past the
+   message still hit ASan's redzone) whose start is 16-aligned, so the message starts at offset 0..7 modulo 8 in turn */
 static a_u64 crc_call(unsigned char const *p, size_t n, a_u64 v)
+{
+    static unsigned rot;
+    size_t const off = rot++ & 7;
+    unsigned char *blk = (unsigned char *)malloc(off + n ? off + n : 1);
+    a_u64 r;
+    if (n) { memcpy(blk + off, p, n); }
+    r = crc_call_(blk + off, n, v);
+    free(blk);
+    return r;
+}
+
+static a_u64 crc_call_(unsigned char const *p, size_t n, a_u64 v)
 {
     switch (cur_w)
     {
